@@ -25,6 +25,7 @@ RULE = ('case = one accepted generated document (a third of them parsed into sto
         'on vs off). Laws: a==b iff b==a on every pair; tokens equal iff same rule and text, and equal tokens hash equally. One '
         'evaluation = one pair compared in both directions; non-trivial = a perturbation pair or a pair with a tree model; distinct = '
         'hash(text, perturbation).')
+RULE += (' Also (rounds 8-9): every edited document compared with a fresh parse of its own printed text (equal iff the structures agree), raw_string2 := None on transactions with both strings, in-place arithmetic then edited == deepcopy(edited).')
 ASSUMPTIONS = ['pairs that differ only in zero-width token order or in indent_by are not asserted either way',
                'reference notion of "same structure" = structural digest from the shadow walker with owned comments kept under their owner']
 
